@@ -15,9 +15,11 @@ import (
 
 	"github.com/smart-core-os/sc-api/go/types"
 	"google.golang.org/protobuf/proto"
+	"google.golang.org/protobuf/types/known/durationpb"
 	"google.golang.org/protobuf/types/known/wrapperspb"
 
 	"github.com/smart-core-os/sc-golang/internal/verifhook"
+	"github.com/smart-core-os/sc-golang/pkg/cmp"
 	"github.com/smart-core-os/sc-golang/pkg/resource"
 )
 
@@ -26,7 +28,10 @@ type SubSpec struct {
 	ID          string `json:"id,omitempty"`
 	BP          bool   `json:"bp"`
 	UpdatesOnly bool   `json:"uo"`
-	Consume     string `json:"consume"` // drain | stop | none | abandon
+	Consume     string `json:"consume"` // drain | stop | none | abandon | pause (receives StopAfter changes, stays away while the writers run, then goes on receiving WITHOUT cancelling)
+	// Mask: read mask of the subscription (scenarios with Msg = "dur" only): "seconds" selects the field that carries
+	// the payload, "nanos" only a field no item ever sets (the subscriber sees every item as the empty message)
+	Mask string `json:"mask,omitempty"`
 	StopAfter   int    `json:"stopAfter,omitempty"`
 	Cancel      string `json:"cancel"` // end | before | timer | point | never
 	CancelUs    int    `json:"cancelUs,omitempty"`
@@ -36,7 +41,7 @@ type SubSpec struct {
 }
 
 type Op struct {
-	Kind string `json:"k"` // set | upd | del
+	Kind string `json:"k"` // set | upd | del | nap (the writer sleeps 3 ms: the stages in front of a consumer that is away fill up)
 	ID   string `json:"id,omitempty"`
 }
 
@@ -47,7 +52,13 @@ type Scenario struct {
 	Initial []string `json:"initial,omitempty"`
 	// Icpt: the collection is created WithIDInterceptor(<named function>): "" | lower | upper | trim.  The ids in
 	// Subs and Writers are what the callers pass in (any spelling); Initial holds stored (canonical) ids.
-	Icpt    string       `json:"icpt,omitempty"`
+	Icpt string `json:"icpt,omitempty"`
+	// Eq: the collection's equivalence option: "" | nodup (WithNoDuplicates) | msgeq (WithMessageEquivalence(cmp.Equal()))
+	// | equiv (WithEquivalence of a hand-written nil-safe Comparer: both present and proto.Equal).  Msg: the message
+	// type of the items: "" = wrapperspb.Int64Value (one field), dur = durationpb.Duration (payload in seconds, nanos
+	// never set).  In both an initial record is the EMPTY message.
+	Eq      string       `json:"eq,omitempty"`
+	Msg     string       `json:"msg,omitempty"`
 	Subs    []SubSpec    `json:"subs"`
 	Writers [][]Op       `json:"writers"`
 	BoundMs int          `json:"boundMs"`
@@ -113,11 +124,45 @@ func val(writer, seq int) *wrapperspb.Int64Value {
 	return wrapperspb.Int64(int64(writer+1)*1_000_000 + int64(seq))
 }
 func decode(m proto.Message) (writer, seq int, ok bool) {
-	v, is := m.(*wrapperspb.Int64Value)
-	if !is || v == nil || v.Value < 1_000_000 {
+	var n int64
+	switch v := m.(type) {
+	case *wrapperspb.Int64Value:
+		n = v.GetValue()
+	case *durationpb.Duration:
+		n = v.GetSeconds()
+	}
+	if n < 1_000_000 {
 		return 0, 0, false
 	}
-	return int(v.Value/1_000_000) - 1, int(v.Value % 1_000_000), true
+	return int(n/1_000_000) - 1, int(n % 1_000_000), true
+}
+
+// message type of a scenario's items
+func mkMsg(kind string, writer, seq int) proto.Message {
+	if kind == "dur" {
+		return &durationpb.Duration{Seconds: val(writer, seq).Value}
+	}
+	return val(writer, seq)
+}
+func zeroMsg(kind string) proto.Message {
+	if kind == "dur" {
+		return &durationpb.Duration{}
+	}
+	return wrapperspb.Int64(0)
+}
+
+func eqOption(name string) resource.Option {
+	switch name {
+	case "nodup":
+		return resource.WithNoDuplicates()
+	case "msgeq":
+		return resource.WithMessageEquivalence(cmp.Equal())
+	case "equiv":
+		return resource.WithEquivalence(resource.ComparerFunc(func(x, y proto.Message) bool {
+			return x != nil && y != nil && proto.Equal(x, y)
+		}))
+	}
+	return nil
 }
 
 // an event as seen by a consumer or expected by the oracle
@@ -150,10 +195,12 @@ type subRun struct {
 	cancel     context.CancelFunc
 	cancelOnce sync.Once
 	resume     chan struct{}
+	goOn       chan struct{} // closed when a paused consumer is to go on receiving
 
 	mu          sync.Mutex
 	got         []ev
 	nSeed       int
+	view        map[string]bool // Collection.Pull: which items exist according to the changes received so far (seeds included)
 	closedAt    time.Time
 	closed      bool
 	cancelledAt time.Time
@@ -221,6 +268,12 @@ func (s *subRun) consume(next func() (ev, bool, bool)) {
 		} else {
 			s.got = append(s.got, e)
 		}
+		if s.spec.Kind == "pull" && e.ID != "" {
+			if s.view == nil {
+				s.view = map[string]bool{}
+			}
+			s.view[e.ID] = e.Typ != "REMOVE"
+		}
 		return true
 	}
 	switch s.spec.Consume {
@@ -231,6 +284,13 @@ func (s *subRun) consume(next func() (ev, bool, bool)) {
 			}
 		}
 		<-s.resume
+	case "pause":
+		for i := 0; i < s.spec.StopAfter; i++ {
+			if !recvOne() {
+				return
+			}
+		}
+		<-s.goOn
 	case "none":
 		<-s.resume
 	case "abandon": // stops receiving, cancels, and never looks at the channel again
@@ -252,8 +312,15 @@ type writerRun struct {
 }
 
 func optsOf(sp SubSpec) []resource.ReadOption {
-	return []resource.ReadOption{resource.WithBackpressure(sp.BP), resource.WithUpdatesOnly(sp.UpdatesOnly)}
+	opts := []resource.ReadOption{resource.WithBackpressure(sp.BP), resource.WithUpdatesOnly(sp.UpdatesOnly)}
+	if sp.Mask != "" {
+		opts = append(opts, resource.WithReadPaths(&durationpb.Duration{}, sp.Mask))
+	}
+	return opts
 }
+
+// blind: the subscription's read mask hides the payload (delivery is judged by change type and item only)
+func (sp SubSpec) blind() bool { return sp.Mask != "" && sp.Mask != "seconds" }
 
 func runStress(sc Scenario) (out Outcome) {
 	bound := time.Duration(sc.BoundMs) * time.Millisecond
@@ -275,7 +342,10 @@ func runStress(sc Scenario) (out Outcome) {
 	} else {
 		var opts []resource.Option
 		for _, id := range sc.Initial {
-			opts = append(opts, resource.WithInitialRecord(id, wrapperspb.Int64(0)))
+			opts = append(opts, resource.WithInitialRecord(id, zeroMsg(sc.Msg)))
+		}
+		if e := eqOption(sc.Eq); e != nil {
+			opts = append(opts, e)
 		}
 		if f := icptFunc(sc.Icpt); f != nil {
 			opts = append(opts, resource.WithIDInterceptor(f))
@@ -315,7 +385,7 @@ func runStress(sc Scenario) (out Outcome) {
 	// subscribe
 	for i, sp := range sc.Subs {
 		ctx, cancel := context.WithCancel(context.Background())
-		s := &subRun{spec: sp, cancel: cancel, resume: make(chan struct{}), done: make(chan struct{})}
+		s := &subRun{spec: sp, cancel: cancel, resume: make(chan struct{}), goOn: make(chan struct{}), done: make(chan struct{})}
 		hookMu.Lock()
 		subs[i] = s
 		hookMu.Unlock()
@@ -369,6 +439,9 @@ func runStress(sc Scenario) (out Outcome) {
 	start := make(chan struct{})
 	doOp := func(w int, seq int, op Op) (e ev, emitted bool, err error) {
 		switch op.Kind {
+		case "nap":
+			time.Sleep(3 * time.Millisecond)
+			return ev{}, false, nil
 		case "set":
 			_, err = value.Set(val(w, seq))
 			return ev{Typ: "SET", W: w, Seq: seq}, err == nil, err
@@ -378,7 +451,7 @@ func runStress(sc Scenario) (out Outcome) {
 			presentMu.Lock()
 			was := present[k]
 			presentMu.Unlock()
-			_, err = coll.Update(op.ID, val(w, seq), resource.WithCreateIfAbsent())
+			_, err = coll.Update(op.ID, mkMsg(sc.Msg, w, seq), resource.WithCreateIfAbsent())
 			if err == nil {
 				presentMu.Lock()
 				present[k] = true
@@ -478,7 +551,9 @@ func runStress(sc Scenario) (out Outcome) {
 
 	// ---- phase B: every consumer that stopped receiving now cancels ("stop receiving, then cancel")
 	for _, s := range subs {
-		if s.spec.Consume != "drain" && s.spec.Cancel != "never" {
+		if s.spec.Consume == "pause" {
+			close(s.goOn)
+		} else if s.spec.Consume != "drain" && s.spec.Cancel != "never" {
 			s.doCancel()
 		}
 	}
@@ -536,11 +611,13 @@ func runStress(sc Scenario) (out Outcome) {
 	// single-item subscriptions end on removal: the item a PullID(ctx, id) watches is key(id), whatever spelling
 	// the subscriber and the deleting writer used
 	for _, s := range subs {
-		if s.spec.Kind != "pullid" || s.spec.Consume != "drain" || !writersDone {
+		if s.spec.Kind != "pullid" || (s.spec.Consume != "drain" && s.spec.Consume != "pause") || !writersDone {
 			continue
 		}
+		// with backpressure every REMOVE of the item reaches the subscription; without, a delete followed by a re-add
+		// may reach it as one REPLACE (the subscription goes on), so only an item that is gone FOR GOOD must end it
 		presentMu.Lock()
-		gone := removed[key(s.spec.ID)]
+		gone := removed[key(s.spec.ID)] && (s.spec.BP || !present[key(s.spec.ID)])
 		presentMu.Unlock()
 		inInitial := false
 		for _, id := range sc.Initial {
@@ -553,6 +630,50 @@ func runStress(sc Scenario) (out Outcome) {
 		if !waitClosed(s, bound) {
 			o.violate(monShutdown, "C10/PullID/not-closed-after-remove", "PullID channel still open after its item was removed",
 				"closed within "+bound.String()+" of the Delete returning", "still open; cancelled="+fmt.Sprint(s.isCancelled()))
+		}
+	}
+
+	// a Collection.Pull subscriber that is receiving and was not cancelled is told of every removal (and re-creation) of
+	// an item it has been shown, with or without backpressure: once the writers are done, what it has received adds up
+	// to the items that exist (the lossy stage may merge changes of an item, never lose their net effect)
+	for _, s := range subs {
+		if coll == nil || s.spec.Kind != "pull" || (s.spec.Consume != "drain" && s.spec.Consume != "pause") || !writersDone ||
+			(s.spec.Cancel != "end" && s.spec.Cancel != "never") || s.isCancelled() {
+			continue
+		}
+		diff := func() string {
+			presentMu.Lock()
+			defer presentMu.Unlock()
+			s.mu.Lock()
+			defer s.mu.Unlock()
+			var ids []string
+			for id := range s.view {
+				ids = append(ids, id)
+			}
+			sort.Strings(ids)
+			for _, id := range ids {
+				if s.view[id] != present[id] {
+					return fmt.Sprintf("item %q: exists=%v, the subscriber was last told exists=%v", id, present[id], s.view[id])
+				}
+			}
+			return ""
+		}
+		o.eval(monDelivery, "net-effect/"+s.class(sc.Res)+"/"+s.spec.Consume, len(writers) > 0)
+		deadline := time.Now().Add(bound)
+		d := diff()
+		for d != "" && time.Now().Before(deadline) {
+			time.Sleep(200 * time.Microsecond)
+			d = diff()
+		}
+		if d != "" {
+			kind := "remove-not-delivered"
+			if !strings.Contains(d, "exists=false, the") {
+				kind = "add-not-delivered"
+			}
+			got, _, _ := s.snapshot()
+			o.violate(monDelivery, "C10/"+s.class(sc.Res)+"/delivery/"+kind,
+				"a receiving, uncancelled Collection.Pull subscriber was not told of the last removal / re-creation of an item it had been shown, although every writer returned",
+				"the received changes add up to the items that exist, within "+bound.String(), d+"; received "+fmtEvs(got))
 		}
 	}
 
@@ -680,7 +801,12 @@ func checkDelivery(o *Outcome, sc Scenario, subs []*subRun, writers []*writerRun
 		}
 	}
 	for _, s := range subs {
-		full := s.spec.BP && s.spec.Consume == "drain" && (s.spec.Cancel == "end" || s.spec.Cancel == "never") && !s.isCancelled()
+		full := s.spec.BP && (s.spec.Consume == "drain" || s.spec.Consume == "pause") && (s.spec.Cancel == "end" || s.spec.Cancel == "never") && !s.isCancelled()
+		blind := s.spec.blind()
+		if blind && (!full || s.spec.Kind == "pullid") {
+			// the payload is masked away: nothing to order by (ends-on-remove, close and goroutines are judged elsewhere)
+			continue
+		}
 		want := map[int][]ev{}
 		if s.spec.Kind == "pullid" {
 			// the updates of its id up to (excluding) the removal
@@ -696,6 +822,17 @@ func checkDelivery(o *Outcome, sc Scenario, subs []*subRun, writers []*writerRun
 			}
 		} else {
 			for w, es := range expectedBy {
+				if blind {
+					// judged by item and change type: every ADD and every REMOVE, in order (an UPDATE may be a duplicate
+					// under the collection's equivalence, every view being the empty message)
+					for _, e := range es {
+						if e.Typ == "ADD" || e.Typ == "REMOVE" {
+							e.Seq = 0
+							want[w] = append(want[w], e)
+						}
+					}
+					continue
+				}
 				want[w] = es
 			}
 		}
@@ -708,7 +845,13 @@ func checkDelivery(o *Outcome, sc Scenario, subs []*subRun, writers []*writerRun
 			deadline := time.Now().Add(bound)
 			for time.Now().Before(deadline) {
 				got, closed, _ := s.snapshot()
-				if len(got) >= total || closed {
+				n := 0
+				for _, e := range got {
+					if !blind || e.Typ == "ADD" || e.Typ == "REMOVE" {
+						n++
+					}
+				}
+				if n >= total || closed {
 					break
 				}
 				time.Sleep(100 * time.Microsecond)
@@ -717,6 +860,9 @@ func checkDelivery(o *Outcome, sc Scenario, subs []*subRun, writers []*writerRun
 		got, _, _ := s.snapshot()
 		gotBy := map[int][]ev{}
 		for _, e := range got {
+			if blind && e.Typ != "ADD" && e.Typ != "REMOVE" {
+				continue
+			}
 			gotBy[e.W] = append(gotBy[e.W], e)
 		}
 		cls := s.class(sc.Res)
